@@ -65,3 +65,12 @@ Theorem C01_full_scan_reads_the_live_messages :
               Inv st' /\ abs st' = abs st.
 Proof. exact full_scan_correct. Qed.
 Print Assumptions C01_full_scan_reads_the_live_messages.
+
+(* a Publish that returns an error - a read-only or closed handle, or a batch refused for an oversized message after
+   the writing segment was already rolled over (History.pub_step) - publishes nothing *)
+Theorem C01_failed_publish_publishes_nothing :
+  forall (H : bytes -> Z) st ms e,
+  Good st -> snd (hstep H st (HPub ms)) = RNum (Err e) ->
+  Good (fst (hstep H st (HPub ms))) /\ abs (fst (hstep H st (HPub ms))) = abs st.
+Proof. exact failed_publish_publishes_nothing. Qed.
+Print Assumptions C01_failed_publish_publishes_nothing.
